@@ -25,6 +25,9 @@ m("c01-div-reg", "C01", "src/instructions/div.rs", "self.reg_read_16(DX)? as u32
   "DIV r/m16 reads BX for DX")
 m("c01-tryfrom", "C01", "src/auto/generated.rs", "Cqo => SupportedMnemonic::Cqo,", "Cqo => SupportedMnemonic::Cwd,", "C01.tables", "TryFrom maps to the wrong variant")
 m("c01-imm", "C01", "src/helpers/operand.rs", "data: i.immediate8to16() as u64,", "data: i.immediate8() as u64,", "C01.imm", "imm8->16 not sign-extended")
+m("c01-ring-swap", "C01", "src/instructions/sub.rs", "d.wrapping_sub(s)", "s.wrapping_sub(d)", "C01.ring", "SUB computes s - d (first form)")
+m("c01-ring-inc", "C01", "src/instructions/inc.rs", "wrapping_add(1)", "wrapping_add(2)", "C01.ring", "INC adds 2 (first form)")
+m("c01-ring-xor", "C01", "src/instructions/xor.rs", "d ^ s", "d | s", "C01.ring", "XOR computes OR (first form)")
 # ---------------------------------------------------------------- C02
 m("c02-clear-mask", "C02", "src/instructions/sub.rs", "(set: FLAG_SF | FLAG_ZF | FLAG_PF; clear: FLAG_CF | FLAG_OF )]",
   "(set: FLAG_SF | FLAG_ZF | FLAG_PF; clear: FLAG_OF )]", "C02.class", "SUB drops CF from a clear mask: stale CF")
@@ -35,6 +38,9 @@ m("c02-setter", "C02", "src/state/flags.rs", "let mut new_flags = a.state.rflags
 m("c02-cld", "C02", "src/instructions/cld.rs", "!FLAG_DF", "!FLAG_IF", "C02.class", "CLD clears a different bit")
 m("c02-shr-mask", "C02", "src/instructions/shr.rs", "let s = s & 0x1f;", "let s = s & 0x3f;", "C02.count", "SHR r/m32 imm8 masks with 0x3f", nth=3)
 m("c06-shr-mask8", "C06", "src/instructions/shr.rs", "let s = s & 0x1f;", "let s = s & 0x3f;", "C06.spurious", "SHR r/m8 imm8 masks with 0x3f: count 32 overflows the flag mask shift")
+m("c02-zf", "C02", "src/state/flags.rs", "if result == 0 {", "if result == 1 {", "C02.setter.zsp", "ZF from result == 1")
+m("c02-pf", "C02", "src/state/flags.rs", "for i in 0..8 {", "for i in 0..7 {", "C02.setter.zsp", "parity over 7 bits")
+m("c02-cmp-result", "C02", "src/instructions/cmp.rs", "d.wrapping_sub(s)", "s.wrapping_sub(d)", "C02.result", "CMP flags from s - d (first form)")
 # ---------------------------------------------------------------- C03
 m("c03-cond", "C03", "src/instructions/ja.rs", "&& self.state.rflags & FLAG_ZF == 0", "|| self.state.rflags & FLAG_ZF == 0", "C03.cond", "JA: && -> ||")
 m("c03-target", "C03", "src/instructions/jmp.rs", "let offset = i.near_branch64() as i64 as u64;\n                self.trace_jump(i, offset)?;",
@@ -60,6 +66,9 @@ m("c06-divzero", "C06", "src/instructions/div.rs", "if src_val == 0 {\n         
   "if src_val == 1 {\n            return Err(AxError::from(format!(\n                \"Divide by zero in Div_rm32", "C06.divzero", "zero test replaced")
 m("c06-mem-drop", "C06", "src/instructions/push.rs", "self.mem_write_64(rsp, value)?;", "let _ = self.mem_write_64(rsp, value);", "C06.mem", "store error dropped")
 m("c06-align", "C06", "src/instructions/xorps.rs", "if addr & 0xf != 0 {", "if addr & 0x7 != 0 {", "C06.align", "alignment mask 0x7")
+m("c06-q-offbyone", "C06", "src/instructions/div.rs", "quotient > u16::MAX as u32", "quotient >= u16::MAX as u32", "C06.quotient", "DIV r/m16 refuses the largest fitting quotient")
+m("c06-q-strict", "C06", "src/instructions/idiv.rs", "quotient > i32::MAX as i64", "quotient > (i32::MAX / 2) as i64", "C06.quotient", "IDIV r/m32 refuses the upper half of the fitting quotients")
+m("c06-q-lax", "C06", "src/instructions/idiv.rs", "quotient < i32::MIN as i64 ||", "quotient < i64::MIN + 1 ||", "C06.quotient", "IDIV r/m32 accepts quotients below the range")
 # ---------------------------------------------------------------- C07
 m("c07-mask", "C07", "src/state/registers.rs", "(reg_value & 0xFFFF_FFFF_FFFF_00FF) | (value << 8)", "(reg_value & 0xFFFF_FFFF_FFFF_0FFF) | (value << 8)", "C07.bits", "AH mask typo")
 m("c07-table", "C07", "src/state/registers.rs", "(SIL, RSI),", "(SIL, RDI),", "C07.tables", "SIL -> RDI")
